@@ -688,8 +688,8 @@ class SQLiteStateBackend(BaseStateBackend[Params, Result]):
             cur = conn.execute(
                 f"""SELECT runner_id, runner_cls, parent_ctx_id, pid, hostname, thread_id
                 FROM {self.tables.RUNNER_CONTEXTS}
-                WHERE runner_id LIKE ?""",
-                (f"%{partial_id}%",),
+                WHERE instr(runner_id, ?) > 0""",
+                (partial_id,),  # plain substring: LIKE would fold case and read _ and % as wildcards
             )
             rows = cur.fetchall()
             cur.close()
